@@ -22,6 +22,7 @@ type obsInfo struct {
 	skipWin  *ssa.Function // isBeforeSkipWindow
 	need     *ssa.Function // needCatchup: the (uint64) bool helper the gate consults directly
 	persist  *ssa.Function // checkPersistSeqNo: the (uint64) bool helper polled in a loop by the gate or its wait helper
+	waitFn   *ssa.Function // when there is no such helper: the function under the gate whose sleeping loop tests the persistence condition in line
 	// fields by role (names are whatever the tree calls them today)
 	fClosed, fEndClosed, fPersist, fCatchNeed, fCatchSeq string
 }
@@ -166,6 +167,17 @@ func observerInfo(c *Ctx, id string) *obsInfo {
 			oi.need = m
 		}
 	}
+	if oi.persist == nil {
+		// the persistence test written out in the polling loop itself: a function under the gate with a loop that sleeps
+		for f := range gateUnit {
+			cyc := cycleBlocks(f)
+			allInstrs(f, func(in ssa.Instruction) {
+				if cc := callOf(in); cc != nil && calleeName(cc) == "time.Sleep" && cyc[in.Block()] && f != oi.gate {
+					oi.waitFn = f
+				}
+			})
+		}
+	}
 	// field roles; the historical names are the fallback when a role cannot be resolved (the rules then fail on
 	// the missing location, never silently)
 	oi.fClosed, oi.fEndClosed, oi.fPersist, oi.fCatchNeed, oi.fCatchSeq = "closed", "endClosed", "persistSeqNo", "isCatchupNeed", "catchupSeqNo"
@@ -176,6 +188,8 @@ func observerInfo(c *Ctx, id string) *obsInfo {
 		oi.fEndClosed = n
 	}
 	if fs := fieldsReadBy(oi.persist, "uint64"); len(fs) == 1 {
+		oi.fPersist = fs[0]
+	} else if fs := fieldsReadBy(oi.waitFn, "uint64"); len(fs) == 1 {
 		oi.fPersist = fs[0]
 	}
 	if fs := fieldsReadBy(oi.need, "flag"); len(fs) == 1 {
